@@ -169,13 +169,18 @@ class DiameterAssociation(object):
         self.__is_connected()
 
         self.state_is_active = False
-        self._stop_threads = True
-        self.transport.close()
-        self.transport = None
 
         #: Whoever is blocked waiting for a message must notice the end of
-        #: the connection.
+        #: the connection. The flag is raised and the go ahead given under 
+        #: the lock which protects its withdrawal, otherwise a consumer 
+        #: which has just seen the flag down withdraws it afterwards.
+        self.postprocess_recv_messages_lock.acquire()
+        self._stop_threads = True
         self.postprocess_recv_messages_ready.set()
+        self.postprocess_recv_messages_lock.release()
+
+        self.transport.close()
+        self.transport = None
 
 
     def recv_message_from_queue(self) -> None:
